@@ -303,6 +303,69 @@ def real_predicate(c, o):
     return bad
 
 
+# ------------------------------------------------------------------ chain side (real getAnchorsNew / findAncestor)
+def gen_chain_cases(ctx):
+    rng = ctx.rng
+    quick = ctx.tier == "quick"
+    cases = []
+    def side_set(m):
+        sides = []
+        for _ in range(rng.choice([0, 1, 1, 2])):
+            f = rng.randrange(0, max(1, m - 1))
+            k = rng.randrange(1, max(2, m - f))
+            if f + k < m:
+                sides.append([f, k])
+        return sides
+    for _ in range(60 if quick else 1500):
+        m = rng.randrange(2, 14)
+        sides = side_set(m)
+        on = rng.randrange(-1, len(sides))
+        top = m if on < 0 else sides[on][0] + sides[on][1]
+        common = rng.randrange(0, top + 1)
+        ln = common + rng.randrange(0, 8)
+        extra = [rng.choice([-1, -2] + list(range(len(sides)))) for _ in range(rng.choice([0, 0, 1, 2]))]
+        cases.append({"m": m, "sides": sides, "on": on, "common": common, "len": ln, "extra": extra})
+    # anchor lists that do not reach genesis (asking chain higher than 496)
+    for _ in range(8 if quick else 80):
+        m = rng.randrange(20, 60)
+        f = rng.randrange(0, 10)
+        k = rng.randrange(5, m - f)
+        on = rng.choice([-1, 0, 0])
+        top = m if on < 0 else f + k
+        common = rng.randrange(0, top + 1)
+        ln = rng.randrange(497, 560)
+        cases.append({"m": m, "sides": [[f, k]], "on": on, "common": common, "len": ln, "extra": rng.choice([[], [], [0], [-1]])})
+    return cases
+
+
+def chain_predicate(c, o):
+    bad = []
+    if o["err"]:
+        bad.append(("chain:" + o["err"][:40], o))
+    if o["ancno"] >= 0:
+        if not o["on_answerer_main"]:
+            bad.append(("chain:ancestor-not-on-answering-main-chain", {"ancno": o["ancno"], "ancid": o["ancid"]}))
+        if not o["on_asker_main"]:
+            bad.append(("chain:ancestor-not-on-asking-main-chain", {"ancno": o["ancno"], "ancid": o["ancid"]}))
+    else:
+        # completeness: no anchor was on the answering node's main chain
+        mainset = set(o["main"])
+        if any(a in mainset for a in o["anchors"]):
+            bad.append(("chain:common-anchor-not-reported", {"anchors": o["anchors"][:8]}))
+    return bad
+
+
+def coq_chain_case(c, o):
+    extra = []
+    for x in c["extra"]:
+        if x < 0:
+            extra.append(7777777)
+        elif x < len(c["sides"]):
+            extra.append((2 + x) * 100000 + c["sides"][x][0] + c["sides"][x][1])
+    return "(%s,%s,%s,%s,%d,%s,%d)" % (lN(o["asker"]), lN(o["main"]), lN(extra), lN(o["anchors"]), o["lastno"],
+                                      vf.coq_Z(o["ancno"]) + "%Z", max(o["ancid"], 0))
+
+
 def run_engine(ctx, binp, test, cases, tag, timeout=1700):
     fin = os.path.join(ctx.workdir, tag + ".in")
     fout = os.path.join(ctx.workdir, tag + ".out")
@@ -427,6 +490,33 @@ def run(ctx):
                                               {"case": rcases[ci], "observed": robs[ci]["s1"]})
     ctx.cov["finder_cases_compared_with_model"] = len(fitems)
 
+    # ---- chain side: real getAnchorsNew (asking node) and findAncestor (answering node, with stored side branches)
+    rc2, log2, chbin = ctx.go_test_binary("chain", [os.path.join(vf.HARNESS, "engines/syncer/zz_verif_c17_chain_engine_test.go")], "chain_c17.test")
+    if rc2 != 0:
+        raise RuntimeError("chain engine build failed:\n" + log2[-3000:])
+    ccases = corpus_cases(ctx, "chain") + gen_chain_cases(ctx)
+    cobs = run_engine(ctx, chbin, "TestVerifC17Chain", ccases, "chain")
+    for ci, (c, o) in enumerate(zip(ccases, cobs)):
+        for name, det in chain_predicate(c, o):
+            pred_fail.append((name, "chain", ci, 0, det))
+    txt = ["From Coq Require Import ZArith NArith List Bool.", "From Verif Require Import Syncer.Model Syncer.Eval.",
+           "Import ListNotations.", "Open Scope N_scope.",
+           "Definition acases : list acase := [%s]." % ";\n".join(coq_chain_case(c, o) for c, o in zip(ccases, cobs)),
+           "Definition M := Eval vm_compute in bad_indices anchor_case_ok acases 0.", "Print M."]
+    rc_, out = ctx.coq_eval("chainside", "\n".join(txt))
+    flat = " ".join(out.split())
+    m = re.search(r"M = (\[[^\]]*\]|nil)", flat)
+    if rc_ != 0 or not m:
+        corr_broken = corr_broken or ("chain-side correspondence could not be evaluated", out[-2000:])
+    else:
+        body = m.group(1)
+        badc = [] if body in ("nil", "[]") else [int(x) for x in re.findall(r"\d+", body)]
+        if badc:
+            ci = badc[0]
+            corr_broken = corr_broken or ("anchor list / findAncestor differ from the Finder model on %d cases" % len(badc),
+                                          {"case": ccases[ci], "observed": {k: v for k, v in cobs[ci].items() if k not in ("asker", "main")}})
+    ctx.cov["chain_side_cases"] = len(ccases)
+
     kinds = {}
     for c, o in zip(scases, sobs):
         for x in o:
@@ -437,7 +527,7 @@ def run(ctx):
     for o in robs:
         st = o["s1"]["stop"].split(":")[0]
         stops[st] = stops.get(st, 0) + 1
-    ctx.cov["evaluations"] = nsteps + len(rcases)
+    ctx.cov["evaluations"] = nsteps + len(rcases) + len(ccases)
     ctx.cov["traces_validated_against_impl"] = len(scases) + len(rcases)
     ctx.cov["distinct_nontrivial"] = len(kinds) + len({(c["common"], c["locallen"], c["remotelen"]) for c in rcases})
     ctx.cov["rule"] = ("step engine: one evaluation = one loop iteration whose sent messages and all queues were compared with the model; "
@@ -462,10 +552,12 @@ def run(ctx):
         if key in reported:
             continue
         reported.add(key)
-        c = (scases if kind == "step" else rcases)[ci]
+        c = (scases if kind == "step" else ccases if kind == "chain" else rcases)[ci]
         rep = {"case": c, "detail": det}
         if kind == "step":
             rep["concrete_events"] = [o["cev"] for o in sobs[ci][:si + 1]]
+        elif kind == "chain":
+            rep["observed"] = {k: v for k, v in cobs[ci].items() if k not in ("asker", "main")}
         else:
             rep["observed"] = robs[ci]
         ctx.finding(key, "sync property '%s' fails on the real syncer (%s engine)" % (name, kind), rep)
